@@ -77,6 +77,10 @@ func provenance(toks []gen.Tok, df string) (cols, strs map[string]bool) {
 				cols[strconv.Itoa(v.I)] = true
 			} else {
 				cols[strconv.FormatFloat(v.F, 'f', -1, 64)], cols[strconv.FormatFloat(v.F, 'g', -1, 64)], cols[strconv.FormatFloat(v.F, 'e', -1, 64)] = true, true, true
+				if v.F == 0 {
+					// -0.0 is the number 0 (the parser normalises the negative zero, fix F12)
+					cols["0"] = true
+				}
 			}
 			if v.S != "" {
 				strs[v.S], cols[v.S] = true, true
